@@ -53,7 +53,7 @@ func (m *C11) Tx(w *world.World, e *world.TxEvent) {
 	h := uint64(e.Height)
 	switch msg := e.Msg.(type) {
 	case *saotypes.MsgStore:
-		if id, ok := world.AttrU64(e.Marks, "new-order", "order-id"); ok {
+		if id, ok := world.NewOrderID(e); ok {
 			m.reqDur[id] = msg.Proposal.Duration
 		}
 	case *saotypes.MsgRenew:
